@@ -129,7 +129,9 @@ def main_check(pid, tier, seed, replay=None, jobs=None):
     wall = time.time() - t0
 
     # ---- evidence
-    os.makedirs(os.path.join(VERIF_DIR, 'evidence'), exist_ok=True)
+    evdir = os.environ.get('VERIF_EVIDENCE_DIR') or os.path.join(VERIF_DIR, 'evidence')
+    rpdir = os.environ.get('VERIF_REPLAY_DIR') or os.path.join(VERIF_DIR, 'replays')
+    os.makedirs(evdir, exist_ok=True)
     cov = {
         'evaluations': total.evaluations,
         'distinct_nontrivial': len(total.distinct),
@@ -156,7 +158,7 @@ def main_check(pid, tier, seed, replay=None, jobs=None):
         'coverage': cov, 'assumptions': list(mon.ASSUMPTIONS), 'wall_s': round(wall, 2),
         'violations': len(new),
     }
-    with open(os.path.join(VERIF_DIR, 'evidence', f'{pid}.json'), 'w') as f:
+    with open(os.path.join(evdir, f'{pid}.json'), 'w') as f:
         json.dump(ev, f, indent=1, default=str)
 
     # ---- report
@@ -171,9 +173,9 @@ def main_check(pid, tier, seed, replay=None, jobs=None):
     for key, (entry, vs) in sorted(known.items()):
         print(f'KNOWN-FINDING: property={pid} {entry["what"]} [key={key}, seen {len(vs)}x]')
     if new:
-        os.makedirs(os.path.join(VERIF_DIR, 'replays'), exist_ok=True)
+        os.makedirs(rpdir, exist_ok=True)
         for n, (key, vs) in enumerate(sorted(new.items())):
-            path = os.path.join(VERIF_DIR, 'replays', f'{pid}-{tier}-{seed}-{n}.json')
+            path = os.path.join(rpdir, f'{pid}-{tier}-{seed}-{n}.json')
             with open(path, 'w') as f:
                 json.dump({'property': pid, 'tier': tier, 'seed': seed, 'key': key,
                            'what': vs[0]['what'], 'cases': [v['replay'] for v in vs],
